@@ -59,6 +59,8 @@ struct Pending {
     id: RequestId,
     to: NodeAddress,
     ds: Vec<u64>,
+    fnode: bool,
+    answered: bool,
 }
 
 pub struct World {
@@ -264,9 +266,12 @@ impl World {
         }
         a.to_string()
     }
-    /// "r<N>" or "@p<K>" (the latest request sent to that peer)
+    /// "r<N>", "@p<K>" (the latest request sent to that peer) or "#<k>" (the k-th oldest FINDNODE request not answered or failed so far)
     fn req_pos(&self, name: &str) -> Option<usize> {
-        if let Some(peer) = name.strip_prefix('@') {
+        if let Some(k) = name.strip_prefix('#') {
+            let k: usize = k.parse().ok()?;
+            self.reqs.iter().enumerate().filter(|(_, r)| r.fnode && !r.answered).map(|(i, _)| i).nth(k.checked_sub(1)?)
+        } else if let Some(peer) = name.strip_prefix('@') {
             let id = self.peers.get(self.peer_idx(peer))?.id;
             self.reqs.iter().rposition(|r| r.to.node_id == id)
         } else {
@@ -294,7 +299,8 @@ impl World {
                 HandlerIn::Request(contact, req) => {
                     let na = contact.node_address();
                     let name = format!("r{}", self.reqs.len() + 1);
-                    self.reqs.push(Pending { name: name.clone(), id: req.id.clone(), to: na.clone(), ds: if let RequestBody::FindNode { distances } = &req.body { distances.clone() } else { vec![] } });
+                    self.reqs.push(Pending { name: name.clone(), id: req.id.clone(), to: na.clone(), ds: if let RequestBody::FindNode { distances } = &req.body { distances.clone() } else { vec![] },
+                                               fnode: matches!(&req.body, RequestBody::FindNode { .. }), answered: false });
                     let body = match &req.body {
                         RequestBody::Ping { enr_seq } => json!({"t": "ping", "seq": enr_seq}),
                         RequestBody::FindNode { distances } => json!({"t": "findnode", "ds": distances}),
@@ -458,6 +464,7 @@ impl World {
                     }
                 };
                 info.insert("from".into(), json!(self.id_name(&to.node_id)));
+                self.reqs[pos].answered = !matches!(&body, ResponseBody::Nodes { total, .. } if *total > 1);
                 let _ = self.hout.send(HandlerOut::Response(to, Box::new(Response { id, body }))).await;
             }
             "fail" => {
@@ -465,6 +472,7 @@ impl World {
                 info.insert("req".into(), json!(self.reqs[pos].name));
                 let id = self.reqs[pos].id.clone();
                 info.insert("from".into(), json!(self.id_name(&self.reqs[pos].to.node_id)));
+                self.reqs[pos].answered = true;
                 let _ = self.hout.send(HandlerOut::RequestFailed(id, discv5::RequestError::Timeout)).await;
             }
             "lookup" => {
@@ -477,6 +485,13 @@ impl World {
                 let k = op.get("k").and_then(|x| x.as_u64()).unwrap_or(16) as usize;
                 let names = self.back.clone();
                 let lid = self.local_id;
+                // rank of every pool node (and the local node) by XOR distance to the target: the order a result must be in
+                let tkey = discv5::Key::from(target);
+                let mut order: Vec<NodeId> = self.peers.iter().map(|p| p.id).chain(std::iter::once(lid)).collect();
+                order.sort_by_key(|id| tkey.distance(&discv5::Key::from(*id)));
+                let ranks: HashMap<NodeId, usize> = order.iter().enumerate().map(|(i, id)| (*id, i + 1)).collect();
+                info.insert("k".into(), json!(if pred.is_some() { k } else { 16 }));
+                info.insert("pred".into(), json!(pred.is_some()));
                 let fut_plain = if pred.is_none() { Some(self.d.find_node(target)) } else { None };
                 let fut_pred = if pred.is_some() { Some(self.d.find_node_predicate(target, Box::new(|e: &Enr| e.udp4_socket().is_some()), k)) } else { None };
                 tokio::spawn(async move {
@@ -486,7 +501,8 @@ impl World {
                         _ => unreachable!(),
                     };
                     let v = match r {
-                        Ok(enrs) => json!({"call": name, "ok": true, "res": enrs.iter().map(|e| if e.node_id() == lid { "L".to_string() } else { names.get(&alloy_rlp::encode(e)).cloned().unwrap_or_else(|| "?".into()) }).collect::<Vec<_>>()}),
+                        Ok(enrs) => json!({"call": name, "ok": true, "res": enrs.iter().map(|e| if e.node_id() == lid { "L".to_string() } else { names.get(&alloy_rlp::encode(e)).cloned().unwrap_or_else(|| "?".into()) }).collect::<Vec<_>>(),
+                                           "ranks": enrs.iter().map(|e| ranks.get(&e.node_id()).copied().unwrap_or(0)).collect::<Vec<_>>()}),
                         Err(e) => json!({"call": name, "ok": false, "err": format!("{e:?}")}),
                     };
                     done.lock().unwrap().push(v);
@@ -528,6 +544,7 @@ impl World {
                 info.insert("req".into(), json!(self.reqs[pos].name));
                 let (id, to) = (self.reqs[pos].id.clone(), self.reqs[pos].to.clone());
                 let rname = self.id_name(&to.node_id);
+                self.reqs[pos].answered = true;
                 let ds: Vec<u64> = self.reqs[pos].ds.clone();
                 info.insert("ds".into(), json!(ds));
                 if !self.seconds.contains_key(&rname) {
@@ -572,7 +589,7 @@ impl World {
                 info.insert("from".into(), json!(rname));
             }
             "shutdown" => self.d.shutdown(),
-            "poke" => {
+            "poke" | "end" => {
                 let _ = self.hout.send(HandlerOut::UnrecognizedFrame(discv5::socket::UnrecognizedFrame { src_address: SocketAddr::new(IpAddr::V4(Ipv4Addr::LOCALHOST), 1), packet: vec![] })).await;
             }
             "advance" => tokio::time::sleep(Duration::from_millis(util::i(op, "ms") as u64)).await,
